@@ -7,6 +7,7 @@ from .pyexpr import Untranslatable
 # Gen file -> translator module (each has translate(repo) -> text)
 GEN = {
     "Units.v": "units",
+    "FromDict.v": "fromdict",
 }
 
 
